@@ -24,10 +24,12 @@ type Case struct {
 	Path    string `json:"sent_path"`
 	Kind    string `json:"kind"` // unreserved|slash
 	Service string `json:"service"`
+	// Prior: the rule set was first loaded with this allow_encoded_slashes setting and then updated to Setting (nothing else changed)
+	Prior string `json:"updated_from_setting,omitempty"`
 }
 
 var ruleSetNames = []string{"literal+catchall", "single+catchall", "single-with-path-params+catchall", "free+catchall", "default-rule-only",
-	"mixed-settings-on-one-expression", "single+strip-prefix"}
+	"mixed-settings-on-one-expression", "single+strip-prefix", "same-path-params-first-under-another-setting"}
 
 var settings = []string{"off", "on", "no_decode"}
 
@@ -91,6 +93,19 @@ func ruleSets(name, setting, base, upstream string) hx.RuleSetFor {
 			}
 
 			rs.Rules = []rulecfg.Rule{a, b, mk("catchall", "/**")}
+		case "same-path-params-first-under-another-setting":
+			// two rules with textually identical path_params, the first one (never matching: other method) with another
+			// allow_encoded_slashes setting than the one under test
+			other := rulecfg.EncodedSlashesOn
+			if setting == "on" {
+				other = rulecfg.EncodedSlashesOff
+			}
+
+			pp := rulecfg.ParameterMatcher{Name: "p", Type: "glob", Value: last[:1] + "*"}
+			first := mk("other-setting", base[:strings.LastIndex(base, "/")+1]+":p", pp)
+			first.EncodedSlashesHandling = other
+			first.Matcher.Methods = []string{"DELETE"}
+			rs.Rules = []rulecfg.Rule{first, mk("single-pp", base[:strings.LastIndex(base, "/")+1]+":p", pp), mk("catchall", "/**")}
 		case "free+catchall":
 			rs.Rules = []rulecfg.Rule{mk("free", "/adm/*r"), mk("catchall", "/**")}
 		case "default-rule-only":
@@ -249,6 +264,9 @@ func judge(c *engine.Ctx, apps *hx.Apps, cs *Case) {
 	}
 
 	feature := cs.RuleSet + "/" + cs.Service
+	if cs.Prior != "" {
+		feature += "/setting-changed-by-an-update"
+	}
 
 	if cs.Kind == "unreserved" {
 		ref := observe(apps, cs.Service, cs.Base)
@@ -275,7 +293,7 @@ func judge(c *engine.Ctx, apps *hx.Apps, cs *Case) {
 	}
 
 	// encoded slash
-	if cs.RuleSet == "single-with-path-params+catchall" {
+	if cs.RuleSet == "single-with-path-params+catchall" || cs.RuleSet == "same-path-params-first-under-another-setting" {
 		// the path_params expression (glob "<first char>*") must still hold for the rule to be the one that answers;
 		// otherwise the catch-all / default rule answers and the case says nothing about this rule's setting
 		last := cs.Path[strings.LastIndex(cs.Path, "/")+1:]
@@ -359,9 +377,9 @@ func Check() *engine.Check {
 	return &engine.Check{
 		ID:    "C08",
 		Level: "exploration",
-		Rule: "7 rule-set shapes (literal, single wildcard, single wildcard with path_params, free wildcard, single wildcard whose literal prefix the proxy strips - each next to a /** catch-all -, rules with different settings on one expression and " +
+		Rule: "8 rule-set shapes (literal, single wildcard, single wildcard with path_params, free wildcard, single wildcard whose literal prefix the proxy strips - each next to a /** catch-all -, rules with different settings on one expression, two rules with the same path_params under different settings and " +
 			"default rule only) x 3 allow_encoded_slashes settings x 3 canonical paths x (every spelling with any subset of the designated " +
-			"unreserved octets - 6 quick / 9 thorough, always including the first and last octet of the path and of every segment - percent-encoded in upper or lower hex = 3^n per path, and %2F / %2f inserted at every position of the last segment, also together with the first octet of the path percent-encoded) " +
+			"unreserved octets - 6 quick / 9 thorough, always including the first and last octet of the path and of every segment - percent-encoded in upper or lower hex = 3^n per path, and %2F / %2f inserted at every position of the last segment, also together with the first octet of the path percent-encoded; the encoded-slash cases also after an update that changed nothing but the setting) " +
 			"x decision and proxy service, sent as raw request bytes through http.ReadRequest and the real handler chains with real mechanisms; " +
 			"oracle: metamorphic equality with the canonical spelling (rule, captures, decision) and the encoded-slash table of the statement. " +
 			"Non-trivial = spelling differs from the canonical one or contains an encoded slash.",
@@ -382,7 +400,7 @@ func Check() *engine.Check {
 	}
 }
 
-func withFixture(name, setting, base string, f func(apps *hx.Apps)) error {
+func withFixture(name, setting, base, prior string, f func(apps *hx.Apps)) error {
 	mf, err := hx.RealFactory(catalogue())
 	if err != nil {
 		return err
@@ -396,7 +414,13 @@ func withFixture(name, setting, base string, f func(apps *hx.Apps)) error {
 	defer apps.Close()
 
 	// the default rule needs an upstream in proxy mode: none exists, so proxy + default rule can never forward (observed as denial)
-	if err := apps.Load(mf, ruleSets(name, setting, base, apps.Upstream.Host())); err != nil {
+	if prior != "" {
+		err = apps.LoadUpdate(mf, ruleSets(name, prior, base, apps.Upstream.Host()), ruleSets(name, setting, base, apps.Upstream.Host()))
+	} else {
+		err = apps.Load(mf, ruleSets(name, setting, base, apps.Upstream.Host()))
+	}
+
+	if err != nil {
 		return err
 	}
 
@@ -421,7 +445,7 @@ func run(c *engine.Ctx) {
 					return
 				}
 
-				err := withFixture(name, setting, base, func(apps *hx.Apps) {
+				err := withFixture(name, setting, base, "", func(apps *hx.Apps) {
 					for _, svc := range []string{"decision", "proxy"} {
 						npos := 6
 						if !c.Quick() {
@@ -429,17 +453,33 @@ func run(c *engine.Ctx) {
 						}
 
 						for _, p := range spellings(base, npos) {
-							judge(c, apps, &Case{name, setting, base, p, "unreserved", svc})
+							judge(c, apps, &Case{name, setting, base, p, "unreserved", svc, ""})
 						}
 
 						for _, p := range slashVariants(base) {
-							judge(c, apps, &Case{name, setting, base, p, "slash", svc})
+							judge(c, apps, &Case{name, setting, base, p, "slash", svc, ""})
 
 							// the same with the first octet of the path (part of the literal prefix) percent-encoded as well
-							judge(c, apps, &Case{name, setting, base, fmt.Sprintf("/%%%02X", p[1]) + p[2:], "slash", svc})
+							judge(c, apps, &Case{name, setting, base, fmt.Sprintf("/%%%02X", p[1]) + p[2:], "slash", svc, ""})
 						}
 					}
 				})
+
+				// the same rule set reached by an update that changed nothing but the setting
+				for _, prior := range settings {
+					if err != nil || prior == setting || name == "default-rule-only" {
+						continue
+					}
+
+					err = withFixture(name, setting, base, prior, func(apps *hx.Apps) {
+						for _, svc := range []string{"decision", "proxy"} {
+							for _, p := range slashVariants(base) {
+								judge(c, apps, &Case{name, setting, base, p, "slash", svc, prior})
+							}
+						}
+					})
+				}
+
 				if err != nil {
 					c.Infra("fixture %s/%s/%s: %v", name, setting, base, err)
 
@@ -458,7 +498,7 @@ func replay(c *engine.Ctx, raw json.RawMessage) {
 		return
 	}
 
-	if err := withFixture(cs.RuleSet, cs.Setting, cs.Base, func(apps *hx.Apps) { judge(c, apps, &cs) }); err != nil {
+	if err := withFixture(cs.RuleSet, cs.Setting, cs.Base, cs.Prior, func(apps *hx.Apps) { judge(c, apps, &cs) }); err != nil {
 		c.Infra("fixture: %v", err)
 	}
 }
